@@ -3,6 +3,7 @@ package ctxsim
 
 import (
 	"bytes"
+	"encoding/binary"
 	"fmt"
 	"runtime/debug"
 	"sort"
@@ -219,6 +220,59 @@ func build(zctx *zed.Context, d *TDesc, perm *kernel.Stream) (zed.Type, error) {
 	panic("bad desc")
 }
 
+// encodeDesc is the harness's own type-value encoder (ZNG type value format):
+// union members in a drawn order, named types always as full definitions.
+func encodeDesc(b []byte, d *TDesc, perm *kernel.Stream) []byte {
+	name := func(b []byte, s string) []byte {
+		b = binary.AppendUvarint(b, uint64(len(s)))
+		return append(b, s...)
+	}
+	switch d.Kind {
+	case "prim":
+		return append(b, byte(prims[d.Prim].ID()))
+	case "record":
+		b = append(b, zed.TypeValueRecord)
+		b = binary.AppendUvarint(b, uint64(len(d.Fields)))
+		for i, f := range d.Fields {
+			b = name(b, f)
+			b = encodeDesc(b, d.Kids[i], perm)
+		}
+		return b
+	case "array":
+		return encodeDesc(append(b, zed.TypeValueArray), d.Kids[0], perm)
+	case "set":
+		return encodeDesc(append(b, zed.TypeValueSet), d.Kids[0], perm)
+	case "error":
+		return encodeDesc(append(b, zed.TypeValueError), d.Kids[0], perm)
+	case "map":
+		b = encodeDesc(append(b, zed.TypeValueMap), d.Kids[0], perm)
+		return encodeDesc(b, d.Kids[1], perm)
+	case "union":
+		kids := append([]*TDesc(nil), d.Kids...)
+		for i := len(kids) - 1; i > 0; i-- {
+			j := perm.Intn(i + 1)
+			kids[i], kids[j] = kids[j], kids[i]
+		}
+		b = append(b, zed.TypeValueUnion)
+		b = binary.AppendUvarint(b, uint64(len(kids)))
+		for _, k := range kids {
+			b = encodeDesc(b, k, perm)
+		}
+		return b
+	case "enum":
+		b = append(b, zed.TypeValueEnum)
+		b = binary.AppendUvarint(b, uint64(len(d.Symbols)))
+		for _, s := range d.Symbols {
+			b = name(b, s)
+		}
+		return b
+	case "named":
+		b = name(append(b, zed.TypeValueNameDef), d.Name)
+		return encodeDesc(b, d.Kids[0], perm)
+	}
+	panic("bad desc")
+}
+
 type c05Op struct {
 	Task int    `json:"task"`
 	Kind string `json:"op"`
@@ -333,7 +387,7 @@ func runC05(tape *kernel.Tape) *kernel.Outcome {
 				}
 				var plan []planned
 				for j := 0; j < nops; j++ {
-					kind := []string{"build", "by-value", "translate", "type-value", "decode-def-ref", "rebind"}[wl.Pick(4, 4, 2, 2, 3, 2)]
+					kind := []string{"build", "by-value", "translate", "type-value", "decode-def-ref", "rebind", "by-foreign-encoding"}[wl.Pick(4, 4, 2, 2, 3, 2, 3)]
 					d := pool[wl.Intn(len(pool))]
 					if kind == "rebind" || wl.Chance(1, 4) {
 						d = genDesc(wl, 2)
@@ -406,6 +460,18 @@ func runC05(tape *kernel.Tape) *kernel.Outcome {
 									fail(kernel.Violatef("C05:type-value-decodes-differently", "goroutine %d: the type value %x of %s decodes in a fresh context to %v", ti, tv, p.d.sig(), dt))
 								}
 							}
+						case "by-foreign-encoding":
+							// A type value written by another producer: the
+							// harness's own encoder, union members in any order,
+							// every named type spelled out in full.
+							tv := encodeDesc(nil, p.d, perm)
+							typ, err := shared.LookupByValue(tv)
+							if err != nil {
+								fail(kernel.Violatef("C05:lookup-by-value-failed", "goroutine %d: LookupByValue of a type value %x for %s failed: %v", ti, tv, p.d.sig(), err))
+								break
+							}
+							observe(ti, "lookup-by-foreign-encoding", p.d.sig(), typ)
+							checkTV(ti, "after lookup-by-foreign-encoding", typ, shared.LookupTypeValue(typ).Bytes())
 						case "decode-def-ref":
 							// A record type whose first field defines a name and
 							// whose second refers to it: {a: N=T, b: N}.
